@@ -13,7 +13,7 @@ RULE = ("formats = every date part x time part of the listed family; datetimes =
         "single-meaning names; non-trivial = the library returned a datetime; distinct = distinct case tuples")
 ASSUMPTIONS = [
     "the clock is virtual (vf.clock), proven on every run; process zone UTC",
-    "year-less formats are not applied to 29 February; %y expresses the year through the fixed 1969-2068 pivot",
+    "a year-less format is read in the (virtual) current year, so 29 February / day 366 exist only when that year is a leap year; %y expresses the year through the fixed 1969-2068 pivot",
     "localized strings use %B/%A (translation yields full English names)",
 ]
 CHUNK = 1500
@@ -23,6 +23,10 @@ TIME_PARTS = ["", "%H:%M", "%H:%M:%S", "%I:%M %p", "%H:%M:%S.%f", "%I:%M:%S %p"]
 FORMATS = [d + (" " + t if t else "") for d in DATE_PARTS for t in TIME_PARTS if not (t and d in ("%Y", "%B", "%B %Y", "%m/%Y", "%b %y"))]
 FORMATS += [t for t in TIME_PARTS if t]          # time-only formats: day, month and year all come from preferences / the clock
 NOW = [datetime(2024, 3, 31, 9, 8, 7), datetime(2023, 2, 28, 23, 59, 59)]
+# year-less formats x every day of the (virtual) current year, leap and non-leap
+YEARLESS = ["%j", "%j %H:%M", "%A %j", "%H:%M %j", "%d %B", "%b %d %H:%M", "%d/%m", "%m-%d %I:%M %p", "%A, %d %B"]
+NOW_YL = [datetime(2024, 3, 31, 9, 8, 7), datetime(2023, 2, 28, 23, 59, 59), datetime(2023, 12, 31, 0, 0, 0), datetime(2100, 6, 15, 12, 0, 0),
+          datetime(2000, 1, 1, 0, 0, 0)]
 PREFS = [("current", "current"), ("first", "first"), ("last", "last"), ("first", "last"), ("last", "first")]
 
 
@@ -112,6 +116,8 @@ def spaces(tier, seed):
                 note="every day 1900-01-01..2100-12-31"),
         Product("localized-month-names", {"ln": range(len(lang_names())), "lf": ["%d %B %Y", "%B %d, %Y %H:%M", "%B %Y", "%y %B %d", "%d-%B-%y %H:%M"], "d": [1, 15, 28],
                                           "pref": [1, 2], "now": [0]}),
+        Product("yearless-every-day", {"yf": YEARLESS, "doy": range(1, 367), "ynow": range(len(NOW_YL)), "pref": [0, 2]},
+                note="the year comes from the (virtual) current year, leap or not; day-of-year formats included"),
         Listed("format-beats-heuristics", [{"s": s, "f": f, "exp": e} for s, f, e in [
             ("01-02-03", "%y-%m-%d", datetime(2001, 2, 3)), ("01-02-03", "%d-%m-%y", datetime(2003, 2, 1)),
             ("01-02-03", "%m-%d-%y", datetime(2003, 1, 2)), ("10/11/12", "%y/%m/%d", datetime(2010, 11, 12)),
@@ -146,7 +152,7 @@ def run_case(sub, c):
             return "ok", True, None
         return "bad", True, {"cls": {"form": sub, "format": c["f"]}, "expected": c["exp"],
                              "observed": o[1:] if o[0] == "exc" else o[1].date_obj, "detail": {"string": c["s"]}}
-    now = NOW[c["now"]]
+    now = NOW_YL[c["ynow"]] if sub == "yearless-every-day" else NOW[c["now"]]
     pd, pm = PREFS[c["pref"]]
     names = None
     langs = ["en"]
@@ -156,6 +162,11 @@ def run_case(sub, c):
         dt = datetime(2013, m, c["d"], 10, 45)
         names = {"month": nm}
         langs = [lang]
+    elif sub == "yearless-every-day":
+        fmt = c["yf"]
+        if c["doy"] > (366 if cal.is_leap(now.year) else 365):
+            return None
+        dt = datetime(*cal.from_ordinal(cal.ordinal(now.year, 1, 1) + c["doy"] - 1), 13, 14, 15)
     else:
         fmt = FORMATS[c["f"]]
         if "ord" in c:
@@ -168,8 +179,8 @@ def run_case(sub, c):
         else:
             dt = CORE[c["dt"]]
     yearless = "%Y" not in fmt and "%y" not in fmt
-    if yearless and (dt.month, dt.day) == (2, 29):
-        return None
+    if yearless and (dt.month, dt.day) == (2, 29) and not cal.is_leap(now.year):
+        return None      # the format cannot express this day in the current year
     s = render(fmt, dt, names)
     exp, per = expected(fmt, dt, pd, pm, now)
     if exp is None:
